@@ -22,6 +22,7 @@ import (
 func (w *w1) onProduceAck(rec *produceRec) {
 	w.sim.Note("produce-reply %s/%d c%d.%d code=%d base=%d n=%d acks=%d %s", rec.topic, rec.part, rec.client, rec.seq, rec.code, rec.base, rec.nrec, rec.acks, mal(rec))
 	w.judgeHealthProduce(rec, simrt.TaskName())
+	w.judgeLease(rec)
 	if rec.code != 0 || rec.acks == 0 || w.cfg("flush_on_ack", 1) != 1 {
 		return
 	}
@@ -393,5 +394,7 @@ func (w *w1) finish() {
 		w.judgeReplicaOps()
 	case "C22":
 		w.judgeTopicKeys()
+	case "C19":
+		w.judgeSegmentOverwrites()
 	}
 }
